@@ -476,7 +476,12 @@ impl Prop for C06 {
                     pad_state(777.0),
                 ],
             };
-            let idle = MachineSpec { states: vec![StateSpec::default()], ..probe.clone() };
+            // the neighbour reaches its end state in an earlier call (an ended neighbour changes nothing)
+            let (end_ev, end_idx) = if eidx == 0 { (Ev::TunnelRecv, 2u8) } else { (Ev::NormalRecv, 0u8) };
+            let idle = MachineSpec {
+                states: vec![StateSpec { trans: vec![(end_idx, vec![(maybenot::constants::STATE_END, Fs(1.0))])], ..StateSpec::default() }],
+                ..probe.clone()
+            };
             let ms = build_machines(&[probe, idle]).unwrap_or_else(|e| panic!("probe machines rejected: {e}"));
             let case = FwCase {
                 machines: vec![],
@@ -488,6 +493,10 @@ impl Prop for C06 {
                 calls: vec![],
             };
             let mut run = FwRun::new(&case, ms, None).map_err(|e| Failure { signature: "framework-new-rejects-validated-machines".into(), detail: e })?;
+            let pre = run.call(&Call { clock: Clock::Add(1), events: vec![end_ev] });
+            if pre.snap.machines[0].state != 0 {
+                return fail("transition-without-declaration", format!("{end_ev:?} moved a machine that declares nothing for it"));
+            }
             let rec = run.call(&Call { clock: Clock::Add(1), events: vec![ev] });
             let moved = rec.snap.machines[0].state == 1;
             if moved != moves {
